@@ -21,6 +21,49 @@ Record preds := mkp { p_host : ob; p_repo : ob; p_tag : ob; p_digest : ob }.
    ?from=<PFrom> of a mount *)
 Inductive rpos := PRepo | PTagRef | PDigest | PFrom | PDigestRef.
 
+(* how the string is spelled in the request target.  [Canon]: the harness hands net/url the
+   decoded string and lets it produce its canonical encoding (no RawPath).  [Raw inq raw]: the
+   request line carries [raw], another of the equivalent percent-encoded spellings of the same
+   string (unnecessary escapes, lower-case hex digits, sub-delimiters left literal, '+' for a
+   space in a query), in the path ([inq] = false) or as a query value ([inq] = true); the request
+   is read by http.ReadRequest as a server reads it, so URL.RawPath is set. *)
+Inductive spell := Canon | Raw (inq : bool) (raw : bytes).
+
+(* RFC 3986 percent-decoding, written on bytes as numbers (37 is the percent sign, 43 is '+',
+   32 the space); None when an escape is malformed *)
+Definition spec_hexval (c : N) : option N :=
+  if (48 <=? c) && (c <=? 57) then Some (c - 48)
+  else if (97 <=? c) && (c <=? 102) then Some (c - 87)
+  else if (65 <=? c) && (c <=? 70) then Some (c - 55)
+  else None.
+
+Fixpoint pct_decode (plus : bool) (b : bytes) : option bytes :=
+  match b with
+  | [] => Some []
+  | c :: rest =>
+      if c =? 37 then
+        match rest with
+        | h :: l :: rest' =>
+            match spec_hexval h, spec_hexval l, pct_decode plus rest' with
+            | Some a, Some b', Some r => Some (16 * a + b' :: r)
+            | _, _, _ => None
+            end
+        | _ => None
+        end
+      else
+        match pct_decode plus rest with
+        | Some r => Some ((if plus && (c =? 43) then 32 else c) :: r)
+        | None => None
+        end
+  end.
+
+(* the spelling denotes the string w *)
+Definition spells (sp : spell) (w : bytes) : bool :=
+  match sp with
+  | Canon => true
+  | Raw inq raw => match pct_decode inq raw with Some w' => beqb w' w | None => false end
+  end.
+
 (* the decoded form of a case (the case files carry [case] below, a compressed form) *)
 Inductive dcase :=
   (* a string handed to the parser and to every predicate *)
@@ -40,6 +83,7 @@ Inductive dcase :=
   (* a string placed at a routing position of a URL handled by ociserver over a recording
      backend: did the backend receive exactly this string in that position *)
   | CR (pos : rpos) (w : bytes)
+       (sp : spell)              (* which of the equivalent spellings of w the URL carried *)
        (pv : preds)              (* ociref.IsValidRepository / IsValidTag / IsValidDigest on w (p_host unused: OF) *)
        (acc : ob).               (* OT reached the backend as w, OF did not, OP the handler panicked *)
 
@@ -84,8 +128,10 @@ Definition predict (c : dcase) : dcase :=
   | CP h r t d _ _ _ _ =>
       let str := to_string (mkref h r t d) in
       CP h r t d (preds_of h r t d) (Some str) (pres_of (parse_relative L str)) (pres_of (parse L str))
-  | CR pos w _ _ =>
-      CR pos w (mkp OF (ob_of (is_valid_repository w)) (ob_of (is_valid_tag w)) (ob_of (is_valid_digest L w)))
+  | CR pos w sp _ _ =>
+      (* the router works on URL.Path and on the parsed query, that is on the decoded string:
+         the spelling plays no part *)
+      CR pos w sp (mkp OF (ob_of (is_valid_repository w)) (ob_of (is_valid_tag w)) (ob_of (is_valid_digest L w)))
          (match pos with
           | PRepo | PFrom => ob_of (router_valid_repo w)
           | PDigest => ob_of (router_valid_digest L w)
@@ -114,6 +160,13 @@ Definition rpos_eqb (a b : rpos) : bool :=
   | _, _ => false
   end.
 
+Definition spell_eqb (a b : spell) : bool :=
+  match a, b with
+  | Canon, Canon => true
+  | Raw q r, Raw q' r' => Bool.eqb q q' && beqb r r'
+  | _, _ => false
+  end.
+
 Definition case_eqb (a b : dcase) : bool :=
   match a, b with
   | CS w rel abs str pv sv wv dg, CS w' rel' abs' str' pv' sv' wv' dg' =>
@@ -122,8 +175,8 @@ Definition case_eqb (a b : dcase) : bool :=
   | CP h r t d pv str rel abs, CP h' r' t' d' pv' str' rel' abs' =>
       beqb h h' && beqb r r' && beqb t t' && beqb d d' && preds_eqb pv pv' &&
       option_eqb beqb str str' && pres_eqb rel rel' && pres_eqb abs abs'
-  | CR pos w pv acc, CR pos' w' pv' acc' =>
-      rpos_eqb pos pos' && beqb w w' && preds_eqb pv pv' && ob_eqb acc acc'
+  | CR pos w sp pv acc, CR pos' w' sp' pv' acc' =>
+      rpos_eqb pos pos' && beqb w w' && spell_eqb sp sp' && preds_eqb pv pv' && ob_eqb acc acc'
   | _, _ => false
   end.
 
@@ -132,6 +185,12 @@ Proof. destruct a, b; cbn; congruence. Qed.
 
 Lemma rpos_eqb_eq a b : rpos_eqb a b = true -> a = b.
 Proof. destruct a, b; cbn; congruence. Qed.
+
+Lemma spell_eqb_eq a b : spell_eqb a b = true -> a = b.
+Proof.
+  destruct a as [|q r], b as [|q' r']; cbn; try congruence. intros H.
+  apply andb_true_iff in H as [H1 H2]. apply Bool.eqb_prop in H1. apply beqb_eq in H2. now subst.
+Qed.
 
 Lemma pres_eqb_eq a b : pres_eqb a b = true -> a = b.
 Proof.
@@ -163,6 +222,7 @@ Ltac to_eqs :=
   | H : beqb _ _ = true |- _ => apply beqb_true in H
   | H : pres_eqb _ _ = true |- _ => apply pres_eqb_eq in H
   | H : rpos_eqb _ _ = true |- _ => apply rpos_eqb_eq in H
+  | H : spell_eqb _ _ = true |- _ => apply spell_eqb_eq in H
   | H : ob_eqb _ _ = true |- _ => apply ob_eqb_eq in H
   | H : preds_eqb _ _ = true |- _ => apply preds_eqb_eq in H
   | H : option_eqb beqb _ _ = true |- _ => apply (option_eqb_eq beqb beqb_true) in H
@@ -175,7 +235,12 @@ Proof.
   destruct a, b; cbn; try congruence; intros H; split_ands; to_eqs; now subst.
 Qed.
 
-Definition d_model_agrees (c : dcase) : bool := case_eqb c (predict c).
+(* a routing case is well formed when the spelling the harness sent does denote the string
+   (a harness invariant, checked here rather than trusted) *)
+Definition d_wf (c : dcase) : bool :=
+  match c with CR _ w sp _ _ => spells sp w | _ => true end.
+
+Definition d_model_agrees (c : dcase) : bool := d_wf c && case_eqb c (predict c).
 
 (* ---------- the specification, read off the property ----------
    Written on the observations alone: it never calls the model's parser, printer or
@@ -240,11 +305,11 @@ Definition d_obs_ok (c : dcase) : bool :=
           (negb (nonempty t) || is_t (p_tag pv)) && (negb (nonempty d) || is_t (p_digest pv))
        then pres_eqb rel (POk h r t d) && pres_eqb abs (POk h r t d)
        else true)
-  | CR pos w pv acc =>
+  | CR pos w sp pv acc =>
       (* the routing layer accepts a string in a position exactly when the position's validity
-         predicate (as observed on the exported functions) holds; a manifest reference is taken
-         as a digest first, else as a tag *)
-      no_panic_preds pv && no_panic_ob acc &&
+         predicate (as observed on the exported functions) holds - whichever of its equivalent
+         spellings the URL uses; a manifest reference is taken as a digest first, else as a tag *)
+      spells sp w && no_panic_preds pv && no_panic_ob acc &&
       Bool.eqb (is_t acc)
         (match pos with
          | PRepo | PFrom => is_t (p_repo pv)
@@ -262,7 +327,7 @@ Definition d_nontrivial (c : dcase) : bool :=
   | CP h r t d pv _ rel _ =>
       nonempty h && is_t (p_host pv) && is_t (p_repo pv) &&
       (negb (nonempty t) || is_t (p_tag pv)) && (negb (nonempty d) || is_t (p_digest pv))
-  | CR _ _ pv acc => is_t acc || is_t (p_repo pv) || is_t (p_tag pv) || is_t (p_digest pv)
+  | CR _ _ _ pv acc => is_t acc || is_t (p_repo pv) || is_t (p_tag pv) || is_t (p_digest pv)
   end.
 
 (* ---------- soundness of the correspondence ---------- *)
@@ -302,9 +367,13 @@ Proof.
   - unfold blen. destruct (Nat.leb_spec (length (c :: rest)) 128); symmetry; [apply Z.leb_le | apply Z.leb_gt]; lia.
 Qed.
 
-Lemma predict_ok c : d_obs_ok (predict c) = true.
+Lemma predict_wf c : d_wf (predict c) = d_wf c.
+Proof. now destruct c. Qed.
+
+Lemma predict_ok c : d_wf c = true -> d_obs_ok (predict c) = true.
 Proof.
-  destruct c as [w rel abs str pv sv wv dg | h r t d pv str rel abs | pos w pv acc]; cbn [predict d_obs_ok].
+  intros Hwf.
+  destruct c as [w rel abs str pv sv wv dg | h r t d pv str rel abs | pos w sp pv acc]; cbn [predict d_obs_ok].
   - (* string case *)
     destruct (parsing_never_panics L w) as [N1 [N2 [N3 N4]]].
     assert (Hsv : no_panic_preds (preds_of w w w w) = true) by apply preds_of_no_panic.
@@ -362,6 +431,7 @@ Proof.
     destruct (print_parse L h r t d H3 H2 H1 Ht Hd) as [P1 P2]. fold str' in P1, P2.
     rewrite P1, P2. cbn [pres_of r_host r_repo r_tag r_digest]. now rewrite pres_eqb_refl.
   - (* routing case *)
+    cbn [d_wf] in Hwf. rewrite Hwf. cbn [andb].
     unfold router_valid_repo, router_valid_digest, router_manifest_ref, no_panic_preds.
     cbn [p_host p_repo p_tag p_digest].
     destruct (predicates_total L w) as [_ [[br Hr] [[bt Ht] [bd Hd]]]].
@@ -371,7 +441,8 @@ Qed.
 
 Lemma d_corr_sound c : d_model_agrees c = true -> d_obs_ok c = true.
 Proof.
-  unfold d_model_agrees. intros H. apply case_eqb_eq in H. rewrite H. apply predict_ok.
+  unfold d_model_agrees. intros H. apply andb_true_iff in H as [Hwf H].
+  apply case_eqb_eq in H. rewrite H. apply predict_ok. exact Hwf.
 Qed.
 
 (* ---------- the form cases have in the case files ----------
@@ -386,7 +457,7 @@ Inductive epres := EPanic | EErr | EOk (h r t d : enc).
 Inductive case :=
   | ES (w : bytes) (rel abs : epres) (str : option enc) (pv : option preds) (sv wv : preds) (dg : option N)
   | EP (base : bytes) (h r t d : enc) (pv : preds) (str : option enc) (rel abs : epres)
-  | ER (pos : rpos) (w : bytes) (pv : preds) (acc : ob).
+  | ER (pos : rpos) (w : bytes) (sp : spell) (pv : preds) (acc : ob).
 
 Definition dec (base : bytes) (e : enc) : bytes :=
   match e with
@@ -409,7 +480,7 @@ Definition decode (c : case) : dcase :=
   | EP base h r t d pv str rel abs =>
       CP (dec base h) (dec base r) (dec base t) (dec base d) pv (option_map (dec base) str)
          (dec_pres base rel) (dec_pres base abs)
-  | ER pos w pv acc => CR pos w pv acc
+  | ER pos w sp pv acc => CR pos w sp pv acc
   end.
 
 Definition model_agrees (c : case) : bool := d_model_agrees (decode c).
